@@ -10,7 +10,7 @@ RULE = (
     "empty / list attribute values and custom separators; distinct = hash of the configuration; trivial = single row"
 )
 ASSUMPTIONS = ["decoder labels are unique single-line strings that do not start with a style segment", "custom styles use three distinct strings of equal width"]
-GATES = ["mon.C09.rows", "mon.C09.decoder", "mon.C09.text", "mon.C09.repr", "C09.depth_ge_4", "C09.last_under_nonlast", "C09.childiter_changes_last", "C09.multiline", "C09.empty_value", "C09.maxlevel_cuts", "C09.abandoned_iteration", "C09.nested_use", "C09.after_mutation", "C09.long_lived_rendertree", "mon.C09.raising_childiter", "C09.maxlevel_int_subclass"]
+GATES = ["mon.C09.rows", "mon.C09.decoder", "mon.C09.text", "mon.C09.repr", "C09.depth_ge_4", "C09.last_under_nonlast", "C09.childiter_changes_last", "C09.multiline", "C09.empty_value", "C09.maxlevel_cuts", "C09.abandoned_iteration", "C09.nested_use", "C09.after_mutation", "C09.long_lived_rendertree", "mon.C09.raising_childiter", "C09.maxlevel_int_subclass", "C09.repr_failed_before"]
 
 
 def plan(tier, seed, jobs):
@@ -395,7 +395,31 @@ def run(ctx):
             check_config(ctx, lib, nodes, idmap, par, ch, s, st, ci, ml, case, names)
         ctx.case(("text", r))
         check_text(ctx, lib, ctx.rng("text", r), [ctx.seed, ctx.shard, r])
+    failed_repr_before(ctx, lib)
     histories(ctx, lib, sts)
+
+
+def failed_repr_before(ctx, lib):
+    """The repr of a node failed once (an attribute value whose own __repr__ raised); after the cause is gone the node -
+    and every other node - is printed in full again."""
+    class Bad:
+        def __repr__(self):
+            raise RuntimeError("no repr yet")
+
+    for cls, mk in (("Node", lambda **kw: lib.Node("x", **kw)), ("AnyNode", lambda **kw: lib.AnyNode(id="x", **kw))):
+        ctx.case(("failed-repr", cls))
+        ctx.count("mon.C09.repr")
+        node = mk(payload=Bad())
+        try:
+            repr(node)
+        except RuntimeError:
+            ctx.count("C09.repr_failed_before")
+        node.payload = 1
+        other = mk(payload=2)
+        exp = ["Node('/x', payload=1)", "Node('/x', payload=2)"] if cls == "Node" else ["AnyNode(id='x', payload=1)", "AnyNode(id='x', payload=2)"]
+        got = [repr(node), repr(other)]
+        if got != exp or str(lib.RenderTree(node)) != exp[0]:
+            ctx.violation("C09/repr/after-failed-repr", "repr", {"directed": "repr(%s) after an attribute value's __repr__ raised once" % cls}, expected=exp, observed=got)
 
 
 def histories(ctx, lib, sts):
